@@ -3,6 +3,7 @@ package props
 import (
 	"encoding/json"
 	"fmt"
+	"github.com/apache/yunikorn-core/pkg/scheduler/objects"
 	"os"
 	"runtime"
 	"runtime/pprof"
@@ -328,6 +329,8 @@ func c14ScenariosUnchecked() []c14Scenario {
 			[]world.Op{{K: "CONFIG", N: 1}}, []world.Op{op("APP_ADD", "app2"), op("ASK", "b1")}, o("SCHEDULE")),
 		mk("S26-two-cycles-vs-ask-release-sequence", setup[:6], []world.Op{op("SCHEDULE"), op("SCHEDULE")}, []world.Op{op("ASK", "a2"), op("RELEASE", "a1"), op("RELEASE", "a2")}, o("REST")),
 		mk("S28-two-cycles-vs-submission-vs-reload", setup, []world.Op{op("SCHEDULE"), op("SCHEDULE")}, []world.Op{op("APP_ADD", "app3"), op("ASK", "c1")}, []world.Op{{K: "CONFIG", N: 1}}),
+		mkQueueMaxRace("S29-queue-max-commit-vs-rm-placed-allocation"),
+		mkNodeRace("S30-node-commit-vs-rm-placed-allocation"),
 		mkMaxApps("S15-maxapps-restart-vs-schedule"),
 		mkLifecycle("S16-completing-timer-vs-new-ask"),
 		mkUGMReload("S17-limits-reload-vs-schedule"),
@@ -377,6 +380,50 @@ func mkHardGang(name string) c14Scenario {
 	s := scnGang("c14-"+name, "Hard")
 	s.Prefix = append(s.Prefix, op("SCHEDULE"), op("ASK", "p2"))
 	return c14Scenario{Name: name, Scn: s, Threads: [][]world.Op{{op("TIMER_PH", "gapp")}, {op("ASK", "r1")}, {op("SCHEDULE")}}}
+}
+
+// the scheduling cycle fills a leaf up to its maximum || the RM reports an allocation it placed itself in the same leaf
+func mkQueueMaxRace(name string) c14Scenario {
+	conf := `partitions:
+  - name: default
+    queues:
+      - name: root
+        submitacl: "*"
+        queues:
+          - name: p
+            parent: true
+            resources:
+              max: {memory: 6}
+            queues:
+              - name: a
+                resources:
+                  max: {memory: 3}
+`
+	s := &world.Scenario{
+		Name:    "c14-" + name,
+		Configs: []string{conf},
+		Nodes:   []world.NodeSpec{{ID: "n1", Cap: world.M(10)}},
+		// the RM-placed allocation belongs to another application of the same leaf: the scheduling cycle holds the lock of
+		// the application it allocates for
+		Apps: []world.AppSpec{{ID: "app1", Queue: "root.p.a", User: "u1", Groups: []string{"g1"}}, {ID: "app2", Queue: "root.p.a", User: "u2", Groups: []string{"g2"}}},
+		Asks: []world.AskSpec{
+			{Key: "a1", App: "app1", Res: world.M(1), Create: 1001},
+			{Key: "a2", App: "app1", Res: world.M(2), Create: 1002},
+			{Key: "a3", App: "app2", Res: world.M(1), Create: 1003, BoundNode: "n1"},
+		},
+		Alphabet: []string{"SCHEDULE", "ASK", "ASK_BOUND", "RELEASE"},
+		Prefix:   []world.Op{op("NODE_ADD", "n1"), op("APP_ADD", "app1"), op("APP_ADD", "app2"), op("ASK", "a1"), op("SCHEDULE"), op("ASK", "a2")},
+	}
+	return c14Scenario{Name: name, Scn: s, Threads: [][]world.Op{{op("SCHEDULE")}, {op("ASK_BOUND", "a3")}, {op("REST")}}}
+}
+
+// the scheduling cycle fills a node || the RM reports an allocation it placed itself on the same node
+func mkNodeRace(name string) c14Scenario {
+	sc := mkQueueMaxRace(name)
+	s := sc.Scn
+	s.Configs = []string{strings.ReplaceAll(strings.ReplaceAll(s.Configs[0], "max: {memory: 6}", "max: {memory: 60}"), "max: {memory: 3}", "max: {memory: 30}")}
+	s.Nodes = []world.NodeSpec{{ID: "n1", Cap: world.M(3)}}
+	return sc
 }
 
 // max applications: the scheduling cycle starts a waiting application || the Completing one is restarted by a new ask ||
@@ -464,6 +511,120 @@ func decodeChoices(s string) []int {
 }
 
 // execOnce builds a fresh world, runs the prefix sequentially and the thread bodies under the interleaving scheduler.
+// c14Probe looks at the books of the queues and nodes at every scheduling point of an execution (all goroutines of the core
+// are parked, the look takes no lock) and so turns an execution into a sequence of steps, each by one thread. It carries
+// the rules that are about the moment of a scheduling decision, which no final state can show:
+//   - a step of the scheduling loop that raises the usage of a queue leaves it at or below the queue's maximum
+//     (C02; allocations the RM placed itself are added by the event handler thread and may exceed it);
+//   - a step of the scheduling loop that raises the allocated resources of a node leaves its available resources
+//     non-negative (C01).
+type c14Probe struct {
+	queues  []*objects.Queue
+	nodes   []*objects.Node
+	lastQ   []map[string]int64
+	lastN   []map[string]int64
+	sched   map[int]bool // thread ids that are the scheduling loop
+	parked  string       // with ilv.Trace: where the scheduling loop was parked when another thread last ran
+	step    int
+	found   []c14ProbeHit
+	steps   int
+	raising int
+}
+
+type c14ProbeHit struct {
+	rule, object, detail, where string
+}
+
+func newC14Probe(w *world.World, sc c14Scenario) *c14Probe {
+	p := &c14Probe{sched: map[int]bool{}}
+	pc := w.CC.GetPartition(world.PartitionName)
+	if pc == nil {
+		return nil
+	}
+	var walk func(q *objects.Queue)
+	walk = func(q *objects.Queue) {
+		p.queues = append(p.queues, q)
+		for _, c := range q.GetCopyOfChildren() {
+			walk(c)
+		}
+	}
+	walk(pc.GetQueue("root"))
+	sort.Slice(p.queues, func(i, j int) bool { return p.queues[i].GetQueuePath() < p.queues[j].GetQueuePath() })
+	p.nodes = pc.GetNodes()
+	sort.Slice(p.nodes, func(i, j int) bool { return p.nodes[i].NodeID < p.nodes[j].NodeID })
+	for i, ops := range sc.Threads {
+		if len(ops) > 0 && ops[0].K == "SCHEDULE" {
+			p.sched[i] = true
+		}
+	}
+	for _, q := range p.queues {
+		a, _ := q.VerifPeek()
+		p.lastQ = append(p.lastQ, a)
+	}
+	for _, n := range p.nodes {
+		a, _ := n.VerifPeek()
+		p.lastN = append(p.lastN, a)
+	}
+	return p
+}
+
+func (p *c14Probe) onPoint(ran int) {
+	p.steps++
+	if ilv.Trace && !p.sched[ran] {
+		for id := range p.sched {
+			if wh := ilv.Where(id); wh != "" {
+				p.parked = wh
+			}
+		}
+	}
+	for i, q := range p.queues {
+		a, max := q.VerifPeek()
+		if p.sched[ran] {
+			for t, now := range a {
+				if now > p.lastQ[i][t] {
+					p.raising++
+					if m, limited := max[t]; limited && now > m && q.QueuePath != "root" {
+						p.found = append(p.found, c14ProbeHit{rule: "step-C02-scheduling-raised-queue-above-max", object: q.QueuePath, where: p.parked,
+							detail: fmt.Sprintf("a step of the scheduling loop raised %s of queue %s from %d to %d, its maximum is %d", t, q.QueuePath, p.lastQ[i][t], now, m)})
+					}
+				}
+			}
+		}
+		p.lastQ[i] = a
+	}
+	for i, n := range p.nodes {
+		a, avail := n.VerifPeek()
+		if p.sched[ran] {
+			for t, now := range a {
+				if now > p.lastN[i][t] && avail[t] < 0 {
+					p.found = append(p.found, c14ProbeHit{rule: "step-C01-scheduling-overcommitted-node", object: n.NodeID, where: p.parked,
+						detail: fmt.Sprintf("a step of the scheduling loop raised allocated %s of node %s from %d to %d, available is now %d", t, n.NodeID, p.lastN[i][t], now, avail[t])})
+				}
+			}
+		}
+		p.lastN[i] = a
+	}
+}
+
+// c14Window names the part of the scheduling cycle in which the scheduling loop was parked while another thread ran
+func c14Window(where string) string {
+	if where == "" {
+		return "unknown"
+	}
+	if strings.Contains(where, "TryIncAllocatedResource") {
+		return "inside-TryIncAllocatedResource"
+	}
+	if strings.Contains(where, "TryAddAllocation") || strings.Contains(where, "addAllocationInternal") {
+		return "inside-node-add"
+	}
+	for _, fn := range []string{"tryNode:", "tryNodes:", "tryReservedAllocate", "tryPlaceholderAllocate", "tryAllocate:", "TryAllocate:", "allocate:"} {
+		if i := strings.Index(where, fn); i >= 0 {
+			return "before-commit-in-" + strings.TrimSuffix(fn, ":")
+		}
+	}
+	return "elsewhere"
+}
+
 // c14Baseline is the number of goroutines of this process while no world exists. The settle barrier of the
 // interleaving scheduler counts goroutines, so a goroutine of the previous world that is still on its way out while the
 // next execution starts would make the barrier open one goroutine early (seen as "replay divergence" under load):
@@ -535,11 +696,23 @@ func c14Exec(sc c14Scenario, prefix []int) (*ilv.Result, string, []mc.Violation,
 		names = append(names, fmt.Sprintf("T%d:%s", i, strings.Join(nm, "+")))
 	}
 	preSnap := w.Snapshot()
+	var probe *c14Probe
+	if !c14NoProbe {
+		probe = newC14Probe(w, sc)
+	}
+	if probe != nil {
+		ilv.OnPoint = probe.onPoint
+	}
 	t3 := time.Now()
 	nWorld := runtime.NumGoroutine() // this goroutine, the process baseline and what the world keeps running
 	res := ilv.Run(bodies, names, prefix, 20*time.Second)
 	if c14Timing {
 		fmt.Fprintf(os.Stderr, "c14 timing: run %v points %d\n", time.Since(t3), len(res.Points))
+	}
+	ilv.OnPoint = nil
+	if probe != nil {
+		c14ProbeSteps += probe.steps
+		c14ProbeRaising += probe.raising
 	}
 	if res.Deadlock != "" || res.Harness != "" {
 		// the instance is poisoned (goroutines blocked for ever): it is not closed, the caller stops using this process
@@ -573,6 +746,12 @@ func c14Exec(sc c14Scenario, prefix []int) (*ilv.Result, string, []mc.Violation,
 				if spec := sc.Scn.Ask(o.A); spec != nil && w.Model.Keys[o.A] == nil {
 					if app := pc.GetApplication(spec.App); app != nil && app.GetAllocationAsk(o.A) != nil {
 						w.Model.Keys[o.A] = &world.KeyState{App: spec.App, State: "ask", Ph: spec.Placeholder}
+						if o.K == "ASK_BOUND" {
+							// placed by the RM itself: the node and the queue were forced (as World.Apply records it)
+							w.Model.Keys[o.A].State, w.Model.Keys[o.A].Node = "bound", spec.BoundNode
+							w.Mem["forced:"+spec.BoundNode] = "1"
+							w.Mem["forcedq:"+spec.App] = "1"
+						}
 					}
 				}
 			}
@@ -585,6 +764,37 @@ func c14Exec(sc c14Scenario, prefix []int) (*ilv.Result, string, []mc.Violation,
 	for _, m := range []mc.Monitor{monC01(), monC03(), monC09(), monC11(), monC05()} {
 		for _, x := range m.Step(sc.Scn, final, st, final, counts) {
 			viol = append(viol, v("C14", "final-state-"+x.Prop+"-"+x.Rule, sc.Name, "after the concurrent run of %v: %s", names, x.Detail))
+		}
+	}
+	// rules about the moment of a decision, judged step by step (see c14Probe)
+	if probe != nil && len(probe.found) > 0 {
+		hits := probe.found
+		if !ilv.Trace {
+			// run the same schedule once more with call stacks to name the window in which the other thread got in
+			ilv.Trace = true
+			w.Close()
+			_, _, traced, _ := c14Exec(sc, prefix)
+			ilv.Trace = false
+			var keep []mc.Violation
+			for _, x := range traced {
+				if strings.HasPrefix(x.Rule, "step-") {
+					keep = append(keep, x)
+				}
+			}
+			if len(keep) > 0 {
+				// the traced run stands for this execution (same schedule, same verdicts)
+				return c14ExecTracedResult(sc, prefix, keep)
+			}
+			return &ilv.Result{Harness: "replay divergence: a step verdict was not reproduced by the traced run of the same schedule"}, "deadlock-or-harness", nil, ""
+		}
+		seen := map[string]bool{}
+		for _, h := range hits {
+			win := c14Window(h.where)
+			if seen[h.rule+h.object+win] {
+				continue
+			}
+			seen[h.rule+h.object+win] = true
+			viol = append(viol, v("C14", h.rule, sc.Name+":"+h.object+":"+win, "during the concurrent run of %v: %s; the other thread ran while the scheduling loop was %s", names, h.detail, win))
 		}
 	}
 	// life cycle (C10) over the whole concurrent run: every logged transition is a documented one, what ends up Completed
@@ -673,7 +883,7 @@ func c14ShardSel(tier string, shard, n int, sel func(name string) bool) *CustomR
 			for attempt := 0; attempt < 3 && res.Harness != "" && (strings.HasPrefix(res.Harness, "did not settle") || strings.HasPrefix(res.Harness, "replay divergence")); attempt++ {
 				// harness trouble is never a verdict: give the stray goroutines time to finish and run the schedule again
 				if len(run.retryWhy) < 20 {
-					run.retryWhy = append(run.retryWhy, sc.Name+": "+res.Harness)
+					run.retryWhy = append(run.retryWhy, sc.Name+": "+res.Harness+" [schedule "+encodeChoices(prefix)+"]")
 				}
 				time.Sleep(200 * time.Millisecond)
 				res, digest, viol, _ = c14Exec(sc, prefix)
@@ -734,6 +944,8 @@ func c14ShardSel(tier string, shard, n int, sel func(name string) bool) *CustomR
 	for k, c := range run.perScenario {
 		cov["executions_"+k] = c
 	}
+	cov["scheduling_points_observed"] = c14ProbeSteps
+	cov["scheduling_steps_raising_usage"] = c14ProbeRaising
 	cov["executions_retried_after_harness_trouble"] = run.retries
 	cov["retry_reasons"] = run.retryWhy
 	cov["schedules_skipped_nondeterministic_replay"] = run.nondet
@@ -787,8 +999,8 @@ func replayC14(fp string, raw interface{}) int {
 	}
 	runtime.GOMAXPROCS(1) // as in the exploring workers (see DESIGN.md, E2)
 	world.SetMapMode(1)
-	if strings.HasPrefix(fp, "C07:") {
-		fp = "C14:" + strings.TrimPrefix(fp, "C07:") // the C07 check reports the announcement rules of the same executions
+	if i := strings.Index(fp, ":"); i > 0 && fp[:i] != "C14" {
+		fp = "C14" + fp[i:] // other checks (C01, C02, C07) report rules of the same executions under their own property
 	}
 	for _, sc := range c14Scenarios() {
 		if sc.Name != rp.Scenario {
@@ -939,5 +1151,48 @@ func LeakProbe(name string, n, k int) {
 				fh.Close()
 			}
 		}
+	}
+}
+
+// DecodeChoices exposes the schedule decoder to the command line tools.
+func DecodeChoices(s string) []int { return decodeChoices(s) }
+
+// c14ExecTracedResult runs the schedule again without tracing for the ordinary verdicts and adds the step verdicts of the
+// traced run (which carry the window of the interleaving in their fingerprint).
+func c14ExecTracedResult(sc c14Scenario, prefix []int, steps []mc.Violation) (*ilv.Result, string, []mc.Violation, string) {
+	c14NoProbe = true
+	res, digest, viol, names := c14Exec(sc, prefix)
+	c14NoProbe = false
+	return res, digest, append(viol, steps...), names
+}
+
+var c14NoProbe bool
+var c14ProbeSteps, c14ProbeRaising int
+
+// c14Part builds the "Also" part of another property's check: the interleaving exploration of the scenarios selected by
+// sel, keeping the violations whose rule starts with rulePrefix and reporting them under prop.
+func c14Part(prop, shardName, rulePrefix string, sel func(name string) bool) func(tier string) *CustomResult {
+	ShardFuncs[shardName] = func(tier string, shard, n int) *CustomResult {
+		r := c14ShardSel(tier, shard, n, sel)
+		var keep []mc.Found
+		for _, f := range r.Violations {
+			if strings.HasPrefix(f.Viol.Rule, rulePrefix) {
+				f.Viol.Prop = prop
+				f.Viol.FP = prop + ":" + strings.TrimPrefix(f.Viol.FP, "C14:")
+				keep = append(keep, f)
+			}
+		}
+		r.Violations = keep
+		return r
+	}
+	return func(tier string) *CustomResult {
+		r := runSharded(shardName, tier, shardCount())
+		out := &CustomResult{Coverage: map[string]interface{}{}, Violations: r.Violations, Harness: r.Harness}
+		for _, k := range []string{"executions", "distinct_final_states", "lock_operations_scheduled", "schedules_skipped_nondeterministic_replay", "exhaustive", "scheduling_points_observed", "scheduling_steps_raising_usage"} {
+			if x, ok := r.Coverage[k]; ok {
+				out.Coverage[k] = x
+			}
+		}
+		return out
 	}
 }
